@@ -277,6 +277,26 @@ def vars_no_retain(ctx):
     ctx.ob(ok, u, 'Vars yields a new ScopeVars on every evaluation: %s' % [norm(x) for x in r])
     su = ctx.unit('core.ScopeVars.__init__')
     base, defaults = su.params[1], su.params[2]
+    if ok:
+        # ... built from its own base and defaults, each in its place (the defaults are applied on
+        # top of the base mapping: swapped, an explicit default would lose against the base)
+        c = r[0].value
+        got = {}
+        for i, a in enumerate(c.args):
+            if i + 1 < len(su.params):
+                got[su.params[i + 1]] = a
+        for k in c.keywords:
+            got[k.arg] = k.value
+        okp = all(isinstance(got.get(nm), ast.Attribute) and is_name(got[nm].value, u.params[0]) and got[nm].attr == nm
+                  for nm in (base, defaults))
+        ctx.ob(okp, u, 'the namespace is built from (self.%s, self.%s) in that order: %s' % (base, defaults, norm(c)),
+               '' if okp else 'base and defaults are exchanged or replaced')
+        # the update order inside the constructor: base first, then the defaults on top
+        stores = [n for n in su.node.body if isinstance(n, (ast.Assign, ast.Expr))]
+        first = next((n for n in stores if base in {x.id for x in ast.walk(n) if isinstance(x, ast.Name)}), None)
+        second = next((n for n in stores if defaults in {x.id for x in ast.walk(n) if isinstance(x, ast.Name)}), None)
+        oko = first is not None and second is not None and su.node.body.index(first) < su.node.body.index(second)
+        ctx.ob(oko, su, 'the defaults are applied after the base mapping')
     for pn in (base, defaults):
         uses = [x for x in su.own_nodes() if isinstance(x, ast.Name) and x.id == pn and isinstance(x.ctx, ast.Load)]
         ctx.require(uses, 'ScopeVars.__init__ does not use %s' % pn)
@@ -297,7 +317,8 @@ def child_frame(ctx):
               and isinstance(n.value.func, ast.Attribute) and n.value.func.attr == 'new_child']
     ctx.require(len(childs) == 1, '_glom: child frame not found')
     c = childs[0].value
-    ctx.ob(is_name(c.func.value, u.params[2]) and not ancestors_in_loop(childs[0]), u,
+    recv = deref(cfg, cfg.node_of(childs[0]), c.func.value)       # ``parent = scope`` names the frame given
+    ctx.ob(is_name(recv, u.params[2]) and not ancestors_in_loop(childs[0]), u,
            'every evaluation creates one child of the frame it was given: %s' % src(childs[0], 60), node=childs[0])
     d = c.args[0] if c.args and isinstance(c.args[0], ast.Dict) else None
     ctx.require(d is not None, '_glom: frame dict display not found')
